@@ -996,7 +996,8 @@ fn exec_userfunc_or_array_or_macro(song: &mut Song, t: &Token) -> bool {
                 }
                 // replace string
                 let mut s = src.clone();
-                for (i, v) in args.iter().enumerate() {
+                // replace the highest number first so that #?1 does not rewrite #?10
+                for (i, v) in args.iter().enumerate().rev() {
                     let varname = format!("#?{}", i + 1);
                     s = s.replace(&varname, &v.to_s());
                 }
@@ -1138,7 +1139,8 @@ fn exec_sys_function(song: &mut Song, t: &Token) -> bool {
         let args = exec_args(song, &args);
         let val = song.variables_get(&func_name2).unwrap_or(&SValue::new()).clone();
         let mut val_s = val.to_s();
-        for (index, arg) in args.iter().enumerate() {
+        // replace the highest number first so that #?1 does not rewrite #?10
+        for (index, arg) in args.iter().enumerate().rev() {
             let macro_n = format!("#?{}", index+1);
             let target = arg.clone().to_s();
             val_s = val_s.replace(&macro_n, &target);
